@@ -8,6 +8,10 @@ Local Open Scope list_scope.
 Definition funs := reachable_funs policy_C04 gen_funs entries_C04.
 Definition skeletons_C04 : list stmt := map gen_entry entries_C04.
 
+(* explanation printed before the obligations are attempted: what the policy does not know *)
+Definition unknown_to_policy := Eval vm_compute in diagnose policy_C04 gen_funs entries_C04.
+Print unknown_to_policy.
+
 Lemma C04_locks : well_locked_all policy_C04 funs skeletons_C04 = true.
 Proof. vm_compute. reflexivity. Qed.
 
